@@ -23,7 +23,7 @@ def stable_missing(wt):
     base = json.load(open("/root/.vp/BASELINE.json"))
     out = tempfile.mktemp(suffix=".xml", dir="/tmp")
     cmd = base["cmd"].replace("<file>", out).replace("cd /repo", f"cd {wt}")
-    env = dict(os.environ, PYTHONPATH=wt)
+    env = dict(os.environ, PYTHONPATH=wt, OMP_NUM_THREADS="2", MKL_NUM_THREADS="2")
     sh(cmd, env=env)
     passed = set()
     try:
